@@ -545,7 +545,7 @@ func c16Attrs(p *chk.Prog, r *chk.Report) {
 				// the list gets one element per community
 				okFill := false
 				for _, rs := range f.RangeLoops(func(e ast.Expr) bool { return f.MatchNew("A.Communities", e) != nil }) {
-					app := f.IsAssignPat("L", "append(L, V)", chk.H("L", f.IsObj(list)))
+					app := f.IsAssignPat("L", "append(L, V)", chk.H("L", isObjOrSource(f, list)))
 					okFill = !loopSkipsWithout(g, rs, app, chk.NoGuard) && !loopHasBreak(g, rs)
 				}
 				okLen = okLen && okFill
@@ -605,16 +605,40 @@ func c16Attrs(p *chk.Prog, r *chk.Report) {
 	if so != nil {
 		sg := so.Graph()
 		a := isParam(so, "asn")
-		okT := false
-		for _, s := range sg.Find(so.IsAssignPat("M.ASN16", "C")) {
-			as := s.Node.(*ast.AssignStmt)
-			v, isC := constInt(so, as.Rhs[0])
-			okT = isC && v == 23456 && sg.Dominated(s, sg.GPat(true, "A > 65535", chk.H("A", a)))
-			for _, e := range sg.EdgesImplying(sg.GPat(true, "A > 65535", chk.H("A", a))) {
-				if sg.BranchAlways(e, func(n ast.Node) bool { return n == s.Top }).Found {
-					okT = false
+		// the 2-byte ASN of the message: the field M.ASN16 itself, or the local that the literal puts there
+		lit0 := msgLiteral(so)
+		var carrier types.Object
+		if lit0 != nil {
+			for _, e := range lit0.Elts {
+				if kv, ok := e.(*ast.KeyValueExpr); ok && kv.Key.(*ast.Ident).Name == "ASN16" {
+					if id, isId := ast.Unparen(kv.Value).(*ast.Ident); isId {
+						carrier = so.ObjOf(id)
+					}
 				}
 			}
+		}
+		isTrans := func(n ast.Node) bool {
+			as, ok := n.(*ast.AssignStmt)
+			if !ok || len(as.Lhs) != 1 || len(as.Rhs) != 1 {
+				return false
+			}
+			if v, isC := constInt(so, as.Rhs[0]); !isC || v != 23456 {
+				return false
+			}
+			if so.MatchNew("M.ASN16", as.Lhs[0]) != nil {
+				return true
+			}
+			return carrier != nil && so.ObjOf(as.Lhs[0]) == carrier
+		}
+		big := sg.GPat(true, "A > 65535", chk.H("A", a))
+		trans := sg.Find(isTrans)
+		okT := len(trans) >= 1
+		for _, s := range trans {
+			okT = okT && sg.Dominated(s, big) // AS_TRANS only above 65535
+		}
+		// and always above 65535: the message is written only after the substitution when asn > 65535
+		for _, w := range sg.FindPat("binary.Write(W, binary.BigEndian, M)") {
+			okT = okT && sg.Dominated(w, chk.GOr(chk.GNot(big), chk.GEvent(isTrans)))
 		}
 		lit := msgLiteral(so)
 		okL := false
@@ -771,6 +795,25 @@ func c16Narrow(p *chk.Prog, r *chk.Report) {
 			}
 			key := name + ":" + types.ExprString(call)
 			_, rev := reviewed[key]
+			if !rev {
+				// the reviewed sites, recognised by what is converted rather than by the spelling of a local
+				arg := call.Args[0]
+				switch name {
+				case "encodePrefixes":
+					if id, isId := ast.Unparen(arg).(*ast.Ident); isId && to.Kind() == types.Uint8 {
+						if rhs, idx := g.DefOf(id, g.FactSite(id)); rhs != nil && idx == 0 && f.MatchWith("P.Mask.Size()", rhs) != nil {
+							rev = true // the number of ones of a mask: 0..128
+						}
+					}
+				case "sendOpen":
+					if to.Kind() == types.Uint16 && isParam(f, "asn")(arg) {
+						rev = true
+					}
+					if to.Kind() == types.Int && f.MatchWith("H.Seconds()", arg, chk.H("H", isParam(f, "holdTime"))) != nil {
+						rev = true
+					}
+				}
+			}
 			x.Check(key, call.Pos(), rev, "", "unchecked narrowing conversion feeding a wire field: values outside the target range wrap silently (use a checked safeconvert function and handle its error)")
 			return true
 		})
